@@ -59,6 +59,9 @@ type Scenario struct {
 	Tag         string              `json:"tag"`
 	Fn          bool                `json:"fn"` // outcomes are a function of the action alone (C10 same outcome)
 	Api         []string            `json:"api"`
+	Members     []Member            `json:"members"`
+	NoRecovery  bool                `json:"norecovery"`
+	MaxAgeS     int                 `json:"maxages"`
 	MaxSubmitMs int                 `json:"maxsubmitms"`
 
 	curTr, curK int
@@ -420,7 +423,9 @@ func runEngine(rec *recorder, sc *Scenario) error {
 	for _, pr := range runs {
 		s.emit(pr.pl, func() ev { return ev{"ev": "StartCall"} })
 		err := ws.Start(ctx, pr.id)
-		s.emit(pr.pl, func() ev { return ev{"ev": "StartRet", "ok": err == nil, "after": false, "known": true, "stale": false} })
+		s.emit(pr.pl, func() ev {
+			return ev{"ev": "StartRet", "ok": err == nil, "after": false, "known": true, "stale": false}
+		})
 		if err != nil {
 			return fmt.Errorf("start: %w", err)
 		}
@@ -600,7 +605,7 @@ func crashPoints(ctx context.Context, rec *recorder, sc *Scenario, pr *planRun, 
 				"tag": sc.Tag, "nplans": 1, "crashk": ck, "crashj": cj, "fn": sc.Fn}
 		})
 		s.emit(0, func() ev {
-			return ev{"ev": "Crash", "snap": snapshot(pre, pr.nm), "reason": pre.Reason.String(), "k": ck, "j": cj, "base": sc.baseStatus}
+			return ev{"ev": "Crash", "snap": snapshot(pre, pr.nm), "reason": pre.Reason.String(), "k": ck, "j": cj, "base": sc.baseStatus, "old": false, "recovery": true, "ages": 0}
 		})
 		sp := &spy{Vault: v, s: s, nm: map[uuid.UUID]*planRun{}}
 		p0 := &planRun{pl: 0, id: pr.id, nm: pr.nm, descs: pr.descs, blocks: pr.blocks}
